@@ -10,6 +10,8 @@
         lengths are never multiplied, shifted or divided
 Not decided: the number theory of add_mod's overflow compensation; underflow of `N - ...`.
 """
+import re
+
 from .. import effects, guards, mir, shared
 from ..report import short_loc
 from . import c04
@@ -37,7 +39,12 @@ SIZE_FNS = {
 ARITH = ("Add", "Mul", "Shl", "AddWithOverflow", "MulWithOverflow", "AddUnchecked", "MulUnchecked", "ShlUnchecked")
 
 
-def is_position(e):
+def is_position(e, f=None):
+    if f is not None:
+        from .. import kinds
+
+        if kinds.kind(f, e) == kinds.PHYS:
+            return "a physical position (%s)" % mir.fmt(e, f)[:40]
     for s in mir.walk(e):
         if not isinstance(s, tuple) or not s:
             continue
@@ -112,7 +119,7 @@ def pos1(ctx, prog, cfg):
             n_arith += 1
             a = f.deep_simplify(f.operand_expr(st["rv"]["a"], b, i))
             c = f.deep_simplify(f.operand_expr(st["rv"]["b"], b, i))
-            pa, pc = is_position(a), is_position(c)
+            pa, pc = is_position(a, f), is_position(c, f)
             if not pa and not pc:
                 continue
             n_pos_uses += 1
@@ -121,6 +128,23 @@ def pos1(ctx, prog, cfg):
                       "raw arithmetic on a buffer position (%s): `%s` exceeds the machine word when the position is close to a "
                       "capacity close to usize::MAX; positions must go through add_mod/sub_mod" % (pa or pc, op),
                       "position + 1 (cannot overflow: position < N)", cfg)
+        # the same through usize's arithmetic methods: saturating/wrapping/checked/overflowing add, mul, shl, pow:
+        # they do not overflow, but what they return for a position near N near usize::MAX is not the position
+        for b, t in f.calls(False):
+            p_ = mir.callee_path(t) or ""
+            m_ = re.fullmatch(r"<usize>::((saturating|wrapping|checked|overflowing|unchecked|strict|carrying)_(add|mul|shl|pow)|pow|next_power_of_two|next_multiple_of)", p_)
+            if not m_:
+                continue
+            n_arith += 1
+            args = [f.deep_simplify(x) for x in f.call_args(b)]
+            pos = [is_position(x, f) for x in args]
+            if not any(pos):
+                continue
+            n_pos_uses += 1
+            ctx.violate("POS1", f.short, "%s(%s)" % (p_, ", ".join(mir.fmt(x, f)[:40] for x in args)), short_loc(f, b),
+                        "`%s` is applied to a buffer position (%s): for a position close to a capacity close to usize::MAX the result "
+                        "saturates/wraps to something that is no longer `position + offset`; positions must go through add_mod/sub_mod"
+                        % (p_, next(x for x in pos if x)), cfg)
     # how many position computations go through the sanctioned functions
     calls = sum(len(f.calls_to("add_mod", False)) + len(f.calls_to("sub_mod", False)) for f in prog.fns.values())
     ctx.floor("POS1", "add_mod/sub_mod call sites", calls, 20, cfg)
@@ -148,6 +172,22 @@ def zst1(ctx, prog, cfg):
             if "SizeOf" in txt or "AlignOf" in txt or "size_of" in une or "align_of" in une or "size_of" in disp or "align_of" in disp or "SIZE" in disp and "mem::SizedTypeProperties" in disp:
                 ctx.violate("ZST1", f.short, "size/align constant", short_loc(f, b, i),
                             "`%s` uses the size/alignment of a type as a value (%s)" % (f.short, txt or une or disp), cfg)
+    # address arithmetic used as a loop bound / test: `p != end`, `p < end` between raw pointers collapses for zero-sized T
+    for f in prog.fns.values():
+        for b, i, st, is_term in f.positions(False):
+            if is_term or st["k"] != "assign" or st["rv"]["k"] != "binop" or st["rv"]["op"] not in ("Eq", "Ne", "Lt", "Le", "Gt", "Ge"):
+                continue
+            tys = []
+            for o in (st["rv"]["a"], st["rv"]["b"]):
+                if isinstance(o, dict) and o.get("k") in ("copy", "move"):
+                    tys.append(o["place"].get("ty", ""))
+            if any(ty_.startswith("*const ") or ty_.startswith("*mut ") for ty_ in tys) and not getattr(f, "rec", {}).get("exp_only"):
+                if any(x.split("::")[-1] in ("debug_assert", "assert", "assert_unsafe_precondition") for x in st.get("exp", []) or []):
+                    continue
+                ctx.violate("ZST1", f.short, "raw pointer comparison", short_loc(f, b, i),
+                            "`%s` decides something by comparing two raw pointers (%s): for a zero-sized element type all element addresses "
+                            "coincide (`p.add(n) == p`), so an address-bounded loop or test behaves differently than for ordinary elements"
+                            % (f.short, st["rv"]["op"]), cfg)
     ctx.check(n > 300, "ZST1", "*", "calls scanned", "?", "only %d call sites scanned" % n, "%d call sites scanned, none inspects element size/alignment" % n, cfg, nontrivial=False)
 
 
